@@ -85,7 +85,8 @@ def run(chk, drv, tbl, pd, seed, prefix, n_cases):
         chk.evaluations += 1
         case = {"function": func.__qualname__, "k": k, "traces": [sexp.dumps(t) for t in mtraces][:6]}
         try:
-            a, r, y = shrink_traced_types(traces, k)
+            # (the parameter is an Iterable: a list, a set, or something that can be walked only once)
+            a, r, y = shrink_traced_types(traces if ci % 2 else iter(traces), k)
             ct = lambda x: "none" if x is None else tyconv.canon(tyconv.ty_to_tree(x, tbl))
             impl = (sorted((n, ct(t)) for n, t in a.items()), ct(r), ct(y))
         except tyconv.Unrepresentable:
@@ -103,7 +104,7 @@ def run(chk, drv, tbl, pd, seed, prefix, n_cases):
         rname, rw, chain = rng.choice([("none", None, ()), ("default", DEFAULT_REWRITER, ("removeEmpty", "configDict", ("largeUnion", "5"), "generator"))])
         case2 = dict(case, strategy=sname, rewriter=rname)
         try:
-            defn = get_updated_definition(func, traces, 0, rw, sval)
+            defn = get_updated_definition(func, iter(traces) if ci % 2 else traces, 0, rw, sval)
             sig = inspect.signature(func)
             empty = inspect.Parameter.empty
 
